@@ -179,6 +179,9 @@ struct IncludeRef {
 	/// drop these item paths
 	#[serde(default)]
 	except: Vec<String>,
+	/// do not import the include file's spec block (when only type definitions are wanted)
+	#[serde(default)]
+	no_spec: bool,
 }
 fn default_true() -> bool {
 	true
@@ -359,6 +362,47 @@ struct FnVisitor<'c> {
 }
 
 impl<'c> FnVisitor<'c> {
+	fn range_index(&mut self, ix: &syn::ExprIndex, rg: &syn::ExprRange, ws: usize, we: usize, deref: bool) {
+		let (xs, xe) = br(ix.expr.span());
+		let mut parts = vec![];
+		if deref {
+			parts.push(Part::Text("(*".into()));
+		}
+		let inclusive = matches!(rg.limits, syn::RangeLimits::Closed(_));
+		let f = match (&rg.start, &rg.end, inclusive) {
+			(Some(_), Some(_), false) => "vf_slice",
+			(Some(_), Some(_), true) => "vf_slice_incl",
+			(Some(_), None, _) => "vf_slice_from",
+			(None, Some(_), false) => "vf_slice_to",
+			(None, Some(_), true) => "vf_slice_to_incl",
+			(None, None, _) => "vf_slice_full",
+		};
+		parts.push(Part::Text(format!("{}(&", f)));
+		parts.push(Part::Src(xs, xe));
+		if let Some(a) = &rg.start {
+			let (s, e) = br(a.span());
+			parts.push(Part::Text(", ".into()));
+			parts.push(Part::Src(s, e));
+		}
+		if let Some(b) = &rg.end {
+			let (s, e) = br(b.span());
+			parts.push(Part::Text(", ".into()));
+			parts.push(Part::Src(s, e));
+		}
+		parts.push(Part::Text(")".into()));
+		if deref {
+			parts.push(Part::Text(")".into()));
+		}
+		self.push(ws, we, parts, "L15");
+		// visit sub-expressions so nested rules still apply
+		syn::visit::visit_expr(self, &ix.expr);
+		if let Some(a) = &rg.start {
+			syn::visit::visit_expr(self, a);
+		}
+		if let Some(b) = &rg.end {
+			syn::visit::visit_expr(self, b);
+		}
+	}
 	fn push(&mut self, start: usize, end: usize, parts: Vec<Part>, rule: &str) {
 		*self.rules.entry(rule.to_string()).or_insert(0) += 1;
 		self.seq += 1;
@@ -644,10 +688,66 @@ impl<'ast, 'c> Visit<'ast> for FnVisitor<'c> {
 		}
 		syn::visit::visit_expr_loop(self, l);
 	}
+	fn visit_expr_method_call(&mut self, mc: &'ast syn::ExprMethodCall) {
+		let m = mc.method.to_string();
+		let (ws, we) = br(mc.span());
+		if (m == "to_string" || m == "to_owned") && mc.args.is_empty() {
+			if let syn::Expr::Lit(syn::ExprLit { lit: syn::Lit::Str(_), .. }) = &*mc.receiver {
+				// L13: "literal".to_string() / .to_owned()
+				let (rs, re) = br(mc.receiver.span());
+				self.push(ws, we, vec![Part::Text("vf_str_to_string(".into()), Part::Src(rs, re), Part::Text(")".into())], "L13");
+				return;
+			}
+		}
+		if m == "copy_from_slice" && mc.args.len() == 1 {
+			// L16: X.copy_from_slice(Y) panics unless the lengths are equal
+			let (rs, re) = br(mc.receiver.span());
+			let (as_, ae) = br(mc.args[0].span());
+			self.push(ws, we, vec![Part::Text("vf_copy_from_slice(&mut ".into()), Part::Src(rs, re), Part::Text(", ".into()), Part::Src(as_, ae), Part::Text(")".into())], "L16");
+			syn::visit::visit_expr(self, &mc.receiver);
+			syn::visit::visit_expr(self, &mc.args[0]);
+			return;
+		}
+		syn::visit::visit_expr_method_call(self, mc);
+	}
+	fn visit_expr_reference(&mut self, r: &'ast syn::ExprReference) {
+		// L15: `&X[a..b]` — slicing panics unless a <= b <= len
+		if r.mutability.is_none() {
+			if let syn::Expr::Index(ix) = &*r.expr {
+				if let syn::Expr::Range(rg) = &*ix.index {
+					let (ws, we) = br(r.span());
+					self.range_index(ix, rg, ws, we, false);
+					return;
+				}
+			}
+		}
+		syn::visit::visit_expr_reference(self, r);
+	}
+	fn visit_expr_index(&mut self, ix: &'ast syn::ExprIndex) {
+		if let syn::Expr::Range(rg) = &*ix.index {
+			let (ws, we) = br(ix.span());
+			self.range_index(ix, rg, ws, we, true);
+			return;
+		}
+		syn::visit::visit_expr_index(self, ix);
+	}
 	fn visit_expr_closure(&mut self, c: &'ast syn::ExprClosure) {
 		self.closure_ord += 1;
 		let ord = self.closure_ord;
 		let cfg = self.cfg.closures.iter().find(|x| x.ordinal == ord).cloned();
+		// L14: Verus rejects `_` as a closure parameter: give it a name (unused)
+		if cfg.as_ref().map(|c| c.params.is_none()).unwrap_or(true) {
+			for (k, inp) in c.inputs.iter().enumerate() {
+				let pat = match inp {
+					syn::Pat::Type(pt) => &*pt.pat,
+					p => p,
+				};
+				if let syn::Pat::Wild(w) = pat {
+					let (a, b) = br(w.span());
+					self.push(a, b, vec![Part::Text(format!("_vx{}_{}", ord, k))], "L14");
+				}
+			}
+		}
 		if let Some(cc) = cfg {
 			let (o1, _) = br(c.or1_token.span());
 			let (_, o2) = br(c.or2_token.span());
@@ -1139,7 +1239,7 @@ fn main() {
 					inc_prelude.push(p);
 				}
 			}
-			if !ic.spec.is_empty() {
+			if !ic.spec.is_empty() && !inc.no_spec {
 				inc_spec.push_str(&format!("// ---- spec of include `{}`\n", inc.file));
 				inc_spec.push_str(&ic.spec);
 				inc_spec.push('\n');
